@@ -196,6 +196,29 @@ R["C15"] = {"harnesses": [
                     "Apply on the empty document: open known finding KF-empty-doc"],
     "outside_bound": ["strings of more than 2 atoms", "invalid UTF-8 input (the property is stated for UTF-8 input)"]}
 
+# ---- legacy root package (staged copy of /repo/*.go built as module github.com/evanphx/json-patch)
+L_K1 = {"k": 1, "kmask0": 63, "maxtok": 2, "tokmask": 3, "shapemask": 8191, "nvals": 8}
+L_K1_Q = {"k": 1, "kmask0": 63, "maxtok": 2, "tokmask": 1, "shapemask": 8191, "nvals": 8}
+L_K2_FLAT = {"k": 2, "kmask0": 63, "kmask1": 63, "maxtok": 1, "tokmask": 1, "shapemask": 34, "nvals": 2}
+L_K2_INNER = {"k": 2, "maxtok": 2, "mintok0": 2, "maxtok1": 1, "tokmask": 1, "shapemask": 2328, "nvals": 2, "kmask0": 7, "kmask1": 56}
+L_K2_COPYEDIT = {"k": 2, "maxtok": 2, "maxtok0": 1, "mintok1": 2, "tokmask": 1, "shapemask": 2328, "nvals": 2, "kmask0": 16, "kmask1": 7}
+L_LIMIT = {"k": 2, "kmask0": 16, "kmask1": 16, "maxtok": 1, "tokmask": 1, "shapemask": 40960, "nvals": 2, "limit": 1}
+L_LIMIT1 = {"k": 1, "kmask0": 16, "maxtok": 2, "tokmask": 1, "shapemask": 57344, "nvals": 2, "limit": 1}
+R["C18"] = {"harnesses": [H("H_Legacy_Apply", [L_K1_Q, L_K2_FLAT, L_K2_INNER, L_K2_COPYEDIT, L_LIMIT1], [L_K1, L_K2_FLAT, L_K2_INNER, L_K2_COPYEDIT, L_LIMIT1, L_LIMIT, dict(L_K2_FLAT, shapemask=315, maxtok=2)],
+    ["legacy/end", "legacy/ref-fails"], AP_BOUND.replace("SupportNegativeIndices symbolic", "package variable SupportNegativeIndices on/off; optionally package variable AccumulatedCopySizeLimit = any int64") + "; pointers have at least one token (v4 offers no root-replacing add and no copy from the root)", target="legacy")],
+    "anchors": ["json-patch.findObject", "(github.com/evanphx/json-patch.Patch).copy", "(github.com/evanphx/json-patch.Patch).move", "(github.com/evanphx/json-patch.Patch).test", "(github.com/evanphx/json-patch.Patch).add", "(github.com/evanphx/json-patch.Patch).remove", "(github.com/evanphx/json-patch.Patch).replace", "json-patch.deepCopy", "(*github.com/evanphx/json-patch.lazyNode).equal"],
+    "assumptions": ["the root package is staged (non-test *.go files copied at check time) into a scratch module named github.com/evanphx/json-patch; the standard library's encoding/json (this toolchain's source) is executed under the same reflect model",
+                    "errors are demanded only for the three classes the property names (failed test, remove/move of an absent location, index out of range)", "test operands are strings without escapes and without <, >, &"],
+    "outside_bound": AP_OUTSIDE}
+R["C19"] = {"harnesses": [
+    H("H_Merge", MERGE_Q, None, ["merge/end", "merge/object-patch"], MERGE_BOUND + " (asserted for object and array patches)", target="legacy"),
+    H("H_MergeMerge", [MM_Q[0], {"docm": 1, "docvals": 2, "patchm": 2, "patchvals": 4, "nonobjdocs": 0}], MM_Q, ["mm/end"], MM_BOUND, target="legacy"),
+    H("H_Create_Legacy", [{"m": 2, "vals": 7}, {"m": 1, "vals": 65535}], [{"m": 2, "vals": 63}, {"m": 1, "vals": 65535}], ["create/end"], CREATE_BOUND + "; numbers are CONCRETE one-digit integers (the legacy path goes through float64; no float theory in the engine)", target="legacy"),
+    H("H_Equal", [{"nshapes": 20, "modes": 13, "containers": 1}], None, ["equal/true", "equal/false"], EQ_BOUND + " (object and array roots, no escaped spellings)", target="legacy")],
+    "anchors": ["json-patch.doMergePatch", "json-patch.mergeDocs", "json-patch.pruneNulls", "json-patch.CreateMergePatch", "json-patch.getDiff", "json-patch.matchesValue", "json-patch.Equal", "(*github.com/evanphx/json-patch.lazyNode).equal"],
+    "assumptions": ["staged legacy module as for C18", "CreateMergePatch numbers concrete plain integers (float64-exact)", "Equal on object/array roots without escapes (property)"],
+    "outside_bound": ["families as for C02/C03/C06/C07 at their quick bounds"]}
+
 if __name__ == "__main__":
     json.dump(R, open(os.path.join(V, "harness", "registry.json"), "w"), indent=1)
     print("registry:", sorted(R))
